@@ -30,3 +30,218 @@ func H_C01_monobit(n int) {
 	vClose(q, sq, 1e-8, "Q")
 	vReach("end")
 }
+
+// expansion of bytes into bits, most significant bit first (definition used by the standard)
+func specBitsOfBytes(d []byte) []bool {
+	r := make([]bool, 0, 8*len(d))
+	for i := 0; i < len(d); i++ {
+		for j := 7; j >= 0; j-- {
+			r = append(r, (d[i]>>uint(j))&1 == 1)
+		}
+	}
+	return r
+}
+
+func H_C01_monobit_bytes(nb int) {
+	d := vBytes(nb)
+	p, q := MonoBitFrequencyTestBytes(d)
+	sp, sq := specMonobit(specBitsOfBytes(d))
+	vClose(p, sp, 1e-8, "P")
+	vClose(q, sq, 1e-8, "Q")
+	vReach("end")
+}
+
+// block length selection over the whole int range
+func H_C01_selectM() {
+	n := vInt(-1<<62, 1<<62)
+	m := selectM(n)
+	want := 10
+	if n >= 1000 {
+		want = 100
+	}
+	if n >= 10000 {
+		want = 1000
+	}
+	if n >= 1000000 {
+		want = 10000
+	}
+	if n >= 100000000 {
+		want = 1000000
+	}
+	vAssert(m == want, "selectM")
+	vReach("end")
+}
+
+// GM/T 0005 5.2: N = floor(n/m) blocks, pi_i = ones_i/m, V = 4m sum (pi_i-1/2)^2, P = igamc(N/2, V/2)
+func specBlockFrequency(x []bool, m int) float64 {
+	n := len(x)
+	N := n / m
+	var v float64
+	for i := 0; i < N; i++ {
+		ones := 0
+		for j := 0; j < m; j++ {
+			if x[i*m+j] {
+				ones++
+			}
+		}
+		pi := float64(ones) / float64(m)
+		v += (pi - 0.5) * (pi - 0.5)
+	}
+	v = 4 * float64(m) * v
+	return igamc(float64(N)/2, v/2)
+}
+
+func H_C01_blockfreq(n, m int) {
+	x := vBits(n)
+	p, q := FrequencyWithinBlockProto(x, m)
+	sp := specBlockFrequency(x, m)
+	vClose(p, sp, 1e-8, "P")
+	vClose(q, sp, 1e-8, "Q")
+	vReach("end")
+}
+
+// automatic block length: FrequencyWithinBlockTest == Proto with the selected m
+func H_C01_blockfreq_auto(n int) {
+	x := vBits(n)
+	p, q := FrequencyWithinBlockTest(x)
+	sp := specBlockFrequency(x, 10)
+	vClose(p, sp, 1e-8, "P")
+	vClose(q, sp, 1e-8, "Q")
+	vReach("end")
+}
+
+// value of the m bits starting at position s of the cyclically extended sequence, MSB first
+func specWindow(x []bool, s, m int) int {
+	v := 0
+	for t := 0; t < m; t++ {
+		v = v * 2
+		if x[(s+t)%len(x)] {
+			v = v + 1
+		}
+	}
+	return v
+}
+
+// GM/T 0005 5.3: non-overlapping m-bit patterns, V = 2^m/N sum n_i^2 - N, P = igamc((2^m-1)/2, V/2)
+func specPoker(x []bool, m int) float64 {
+	n := len(x)
+	N := n / m
+	size := 1
+	for i := 0; i < m; i++ {
+		size = size * 2
+	}
+	hist := make([]int, size)
+	for i := 0; i < N; i++ {
+		hist[specWindow(x, i*m, m)]++
+	}
+	var s float64
+	for i := 0; i < size; i++ {
+		s += float64(hist[i]) * float64(hist[i])
+	}
+	v := float64(size)/float64(N)*s - float64(N)
+	return igamc(float64(size-1)/2, v/2)
+}
+
+func H_C01_poker(n, m int) {
+	x := vBits(n)
+	p, q := PokerProto(x, m)
+	sp := specPoker(x, m)
+	vClose(p, sp, 1e-8, "P")
+	vClose(q, sp, 1e-8, "Q")
+	vReach("end")
+}
+
+func H_C01_poker_bytes(nb, m int) {
+	d := vBytes(nb)
+	p, q := PokerTestBytes(d, m)
+	sp := specPoker(specBitsOfBytes(d), m)
+	vClose(p, sp, 1e-8, "P")
+	vClose(q, sp, 1e-8, "Q")
+	vReach("end")
+}
+
+// psi^2_m over the n cyclic windows of length m (0 for m <= 0)
+func specPsi2(x []bool, m int) float64 {
+	n := len(x)
+	if m <= 0 {
+		return 0
+	}
+	size := 1
+	for i := 0; i < m; i++ {
+		size = size * 2
+	}
+	hist := make([]int, size)
+	for s := 0; s < n; s++ {
+		hist[specWindow(x, s, m)]++
+	}
+	var sum float64
+	for i := 0; i < size; i++ {
+		sum += float64(hist[i]) * float64(hist[i])
+	}
+	return float64(size)/float64(n)*sum - float64(n)
+}
+
+// GM/T 0005 5.4: P1 = igamc(2^(m-2), (psi_m - psi_{m-1})/2), P2 = igamc(2^(m-3), (psi_m - 2 psi_{m-1} + psi_{m-2})/2)
+func specOverlapping(x []bool, m int) (float64, float64) {
+	a, b, c := specPsi2(x, m), specPsi2(x, m-1), specPsi2(x, m-2)
+	d1 := a - b
+	d2 := a - 2*b + c
+	dof := 1.0
+	for i := 0; i < m-2; i++ {
+		dof = dof * 2
+	}
+	return igamc(dof, d1/2), igamc(dof/2, d2/2)
+}
+
+func H_C01_overlapping(n, m int) {
+	x := vBits(n)
+	p1, p2, q1, q2 := OverlappingTemplateMatchingProto(x, m)
+	s1, s2 := specOverlapping(x, m)
+	vClose(p1, s1, 1e-8, "P1")
+	vClose(p2, s2, 1e-8, "P2")
+	vClose(q1, s1, 1e-8, "Q1")
+	vClose(q2, s2, 1e-8, "Q2")
+	vReach("end")
+}
+
+// phi_m = sum_j C_j ln C_j, C_j = count_j / n over the n cyclic windows of length m
+func specPhi(x []bool, m int) float64 {
+	n := len(x)
+	size := 1
+	for i := 0; i < m; i++ {
+		size = size * 2
+	}
+	hist := make([]int, size)
+	for s := 0; s < n; s++ {
+		hist[specWindow(x, s, m)]++
+	}
+	// sum_j C_j ln C_j = (sum_j count_j ln(count_j/n)) / n
+	var phi float64
+	for i := 0; i < size; i++ {
+		if hist[i] > 0 {
+			phi += float64(hist[i]) * math.Log(float64(hist[i])/float64(n))
+		}
+	}
+	return phi / float64(n)
+}
+
+// GM/T 0005 5.12: ApEn = phi_m - phi_{m+1}, V = 2n(ln 2 - ApEn), P = igamc(2^(m-1), V/2)
+func specApEn(x []bool, m int) float64 {
+	n := len(x)
+	apen := specPhi(x, m) - specPhi(x, m+1)
+	v := 2 * float64(n) * (math.Log(2) - apen)
+	dof := 1.0
+	for i := 0; i < m-1; i++ {
+		dof = dof * 2
+	}
+	return igamc(dof, v/2)
+}
+
+func H_C01_apen(n, m int) {
+	x := vBits(n)
+	p, q := ApproximateEntropyProto(x, m)
+	sp := specApEn(x, m)
+	vClose(p, sp, 1e-8, "P")
+	vClose(q, sp, 1e-8, "Q")
+	vReach("end")
+}
